@@ -80,6 +80,9 @@ Proof.
   - destruct (coll_id s coll); exact Hs.
   - exact Hs.
   - destruct (coll_id s coll); exact Hs.
+  - destruct (coll_id s coll); [|exact Hs]. destruct (same_ddoc _ _ _ _); exact Hs.
+  - destruct (coll_id s coll); [|exact Hs]. destruct (existsb _ _); exact Hs.
+  - destruct (coll_id s coll); [|exact Hs]. destruct (filter _ _); exact Hs.
   - pose proof (expire_colls_ok x (map fst (s_colls s)) s [] Hs) as H.
     destruct (expire_colls s x (map fst (s_colls s)) []) as [s' evs]. exact H.
 Qed.
@@ -143,7 +146,7 @@ Proof.
 Qed.
 
 Lemma coll_id_set_lastcas s cid c name :
-  coll_id (mkStore (s_docs s) (set_coll_lastcas cid c (s_colls s)) (s_nextcoll s) (s_lastcas s) (s_high s) (s_log s)) name = coll_id s name.
+  coll_id (mkStore (s_docs s) (set_coll_lastcas cid c (s_colls s)) (s_nextcoll s) (s_lastcas s) (s_high s) (s_log s) (s_views s)) name = coll_id s name.
 Proof.
   unfold coll_id; cbn [s_colls]. induction (s_colls s) as [|[id [nm lc]] r IH]; cbn; [reflexivity|].
   destruct (id =? cid); cbn; destruct (String.eqb nm name); cbn; auto.
@@ -152,9 +155,11 @@ Qed.
 Lemma coll_id_kv_on s x cid key op name : coll_id (sr_store (kv_on s x cid key op)) name = coll_id s name.
 Proof.
   unfold kv_on; cbv zeta; cbn [sr_store]. unfold coll_id; cbn [s_colls].
-  destruct (kr_commit _); [|reflexivity].
-  induction (s_colls s) as [|[id [nm lc]] r IH]; cbn; [reflexivity|].
-  destruct (id =? cid); cbn; destruct (String.eqb nm name); cbn; auto.
+  destruct (kr_commit _); [|destruct (is_withmeta op && _); [|reflexivity]].
+  - induction (s_colls s) as [|[id [nm lc]] r IH]; cbn; [reflexivity|].
+    destruct (id =? cid); cbn; destruct (String.eqb nm name); cbn; auto.
+  - induction (s_colls s) as [|[id [nm lc]] r IH]; cbn; [reflexivity|].
+    destruct (id =? cid); cbn; destruct (String.eqb nm name); cbn; auto.
 Qed.
 
 Lemma get_doc_kv_on s x cid key op :
